@@ -35,7 +35,7 @@ use serde_json::{json, Value};
 use std::collections::{BTreeMap, BTreeSet, HashMap, HashSet};
 use std::num::NonZeroUsize;
 use tokio::sync::oneshot;
-use vtrace::{arg, read_ndjson, Trace};
+use vtrace::{arg, guarded, read_ndjson, Trace};
 use xor_name::XorName;
 
 const NC: usize = 18; // contents of the universe (GetRecord.tla `Content`)
@@ -356,12 +356,15 @@ impl<'a> World<'a> {
             (uz(&s["caller"]), uz(&s["key"]), uz(&s["target"]), uz(&s["q"]), uz(&s["p"]), uz(&s["c"]), uz(&s["k"]));
         let quorum = s["quorum"].as_str().unwrap_or("One").to_string();
         let mut att = 0usize;
-        let res: Result<(), NetworkError>;
+        // a panic of the code under test is data ("Panic"), not a tool failure
+        let res: Result<Result<(), NetworkError>, String>;
         if ev == "Call" {
             let before = self.pending();
             let (tx, rx) = oneshot::channel();
             let cfg = self.cfg(&quorum, target, key, None);
-            res = self.drv.verif_handle_network_cmd(NetworkSwarmCmd::GetNetworkRecord { key: self.keys[key - 1].clone(), sender: tx, cfg });
+            let cmd = NetworkSwarmCmd::GetNetworkRecord { key: self.keys[key - 1].clone(), sender: tx, cfg };
+            let drv = &mut self.drv;
+            res = guarded(move || drv.verif_handle_network_cmd(cmd));
             self.callers.insert(caller, CallerSlot { rx, done: false });
             let after = self.pending();
             for (qa, _, na, _) in &after {
@@ -396,14 +399,15 @@ impl<'a> World<'a> {
                 "Timeout" => self.kad_event(qid, q, Err(kad::GetRecordError::Timeout { key: qkey }), true),
                 other => panic!("unknown step {other}"),
             };
-            res = self.drv.verif_handle_kad_event(event);
+            let drv = &mut self.drv;
+            res = guarded(move || drv.verif_handle_kad_event(event));
         }
         let dl = self.poll_callers();
         let pend = self.pending();
         let pq: Vec<usize> = pend.iter().map(|x| x.0).collect();
         t.emit(json!({
             "ev": ev, "caller": caller, "key": key, "quorum": quorum, "target": target, "q": q, "p": p, "c": c, "k": k,
-            "att": att, "res": if res.is_ok() { "Ok" } else { "Err" }, "dl": dl, "pq": pq,
+            "att": att, "res": match &res { Ok(Ok(())) => "Ok", Ok(Err(_)) => "Err", Err(_) => "Panic" }, "dl": dl, "pq": pq,
             "pend": pend.iter().map(|(q, k, n, v)| json!({"q": q, "key": k, "n": n, "v": v})).collect::<Vec<_>>(),
             "src": src,
         }));
@@ -488,8 +492,10 @@ impl<'a> World<'a> {
             let o = match self.next_cmd(10_000).await {
                 Some((_k, sender)) => {
                     let _ = sender.send(Err(GetRecordError::SplitRecord { result_map: m }));
-                    let r = h.await.expect("client task");
-                    self.net_outcome(&r)
+                    match h.await {
+                        Ok(r) => self.net_outcome(&r),
+                        Err(_) => json!({"kind":"Dropped","e":"Panic","cid":0,"k":0,"vk":"","vs":[]}),
+                    }
                 }
                 None => {
                     h.abort();
@@ -581,8 +587,10 @@ async fn retry_cases(u: &Universe, t: &mut Trace, cases: &[Value], rng: &mut Std
             }
             let fin = j.handle.as_ref().map(|h| h.is_finished()).unwrap_or(false);
             if fin {
-                let r = j.handle.take().expect("handle").await.expect("client task");
-                j.result = Some(w.net_outcome(&r));
+                j.result = Some(match j.handle.take().expect("handle").await {
+                    Ok(r) => w.net_outcome(&r),
+                    Err(_) => json!({"kind":"Dropped","e":"Panic","cid":0,"k":0,"vk":"","vs":[]}),
+                });
                 progressed = true;
             } else {
                 all = false;
@@ -657,6 +665,69 @@ fn random_run(w: &mut World, t: &mut Trace, rng: &mut StdRng) {
     }
 }
 
+/// Boundary behaviours (systematic): a first caller, a second caller that asks the same / with another
+/// quorum / another expected value / another key and joins after j replies, then replies by distinct (or
+/// repeating) peers that agree or alternate between two contents, delivered to every pending query, and a
+/// terminating event for whatever is still pending.
+fn directed_runs(u: &Universe, t: &mut Trace, seed: u64, run_no: &mut u64) {
+    let quorums = ["One", "N2", "Maj", "All", "N4"];
+    let pairs: [(usize, usize); 3] = [(1, 2), (13, 14), (4, 9)];
+    let mut n = 0u64;
+    for (qi, q1) in quorums.iter().enumerate() {
+        for t1i in 0..2usize {
+            // second caller variants: (quorum, target selector, key); target selector 0 none, 1 = c1, 2 = c2
+            let mut variants: Vec<(&str, usize, usize)> = vec![(q1, t1i, 1), (q1, t1i, 2), (q1, if t1i == 0 { 1 } else { 0 }, 1), (q1, 2, 1)];
+            for q2 in quorums.iter().filter(|q| *q != q1) {
+                variants.push((q2, t1i, 1));
+            }
+            for (vi, (q2, t2i, key2)) in variants.iter().enumerate() {
+                for j in 0..3usize {
+                    for pattern in 0..3usize {
+                        for ending in ["Finished", "Timeout"] {
+                            n += 1;
+                            let (c1, c2) = pairs[((qi + vi + j + pattern) as usize) % pairs.len()];
+                            let sel = |i: usize| match i {
+                                0 => 0,
+                                1 => c1,
+                                _ => c2,
+                            };
+                            *run_no += 1;
+                            let mut rng = StdRng::seed_from_u64(seed.wrapping_mul(15_485_863).wrapping_add(n));
+                            let mut w = World::new(u, &mut rng);
+                            t.emit(json!({"ev":"Reset","run":*run_no,"src":"class"}));
+                            let reply = |i: usize| -> (usize, usize) {
+                                match pattern {
+                                    0 => (i + 1, c1),                            // distinct peers agree
+                                    1 => (i / 2 + 1, c1),                        // every peer answers twice
+                                    _ => (i + 1, if i % 2 == 0 { c1 } else { c2 }), // two versions alternate
+                                }
+                            };
+                            w.step(t, &json!({"ev":"Call","caller":1,"key":1,"quorum":q1,"target":sel(t1i)}), "class");
+                            for i in 0..6usize {
+                                if i == j {
+                                    w.step(t, &json!({"ev":"Call","caller":2,"key":key2,"quorum":q2,"target":sel(*t2i)}), "class");
+                                }
+                                let live = w.pending();
+                                if live.is_empty() {
+                                    break;
+                                }
+                                let (p, c) = reply(i);
+                                for (q, key, _, _) in live {
+                                    w.step(t, &json!({"ev":"Found","q":q,"p":p,"c":c,"k":key}), "class");
+                                }
+                            }
+                            let live: Vec<usize> = w.pending().iter().map(|x| x.0).collect();
+                            for q in live {
+                                w.step(t, &json!({"ev":ending,"q":q}), "class");
+                            }
+                        }
+                    }
+                }
+            }
+        }
+    }
+}
+
 async fn run() {
     let out = arg("--out").expect("--out");
     let seed = vtrace::seed_from_env();
@@ -681,6 +752,9 @@ async fn run() {
         let mut w = World::new(&u, &mut rng);
         t.emit(json!({"ev":"Reset","run":run_no,"src":"random"}));
         random_run(&mut w, &mut t, &mut rng);
+    }
+    if arg("--directed").is_some() {
+        directed_runs(&u, &mut t, seed, &mut run_no);
     }
     if let Some(p) = arg("--cases") {
         let cases = read_ndjson(&p);
